@@ -669,6 +669,29 @@ def run_dro(case, ses):
                 else:
                     report(ses, 'dro.convex-call', '%s: (abs(w - 3) + x[1])() does not return, per scenario, |w - 3| + x[1] of that '
                            'scenario (got %s)' % (label, cv), dict(k='dro', case=case, seq=seq))
+                # the same expression under E(...): the values of an expectation expression of event-wise decisions are
+                # per-scenario results too (labelled), never the value of the first scenario alone
+                from rsome import E
+                ses.stats.obligations += 1
+                ses.stats.kinds['dro-expectation-call(concrete)'] = ses.stats.kinds.get('dro-expectation-call(concrete)', 0) + 1
+                try:
+                    ev = E(2.0 * x[1] - w + 0.5)()
+                    oke = isinstance(ev, pd.Series) and list(ev.index) == lab
+                    for s in range(ns):
+                        rs = rules[s]
+                        col_w = onehot_cols(rs[w.first:w.first + 1])[0]
+                        col_x = onehot_cols(rs[x.first + 1:x.first + 2])[0]
+                        oke = oke and abs(float(ev.loc[lab[s]]) - (2.0 * sent[col_x] - sent[col_w] + 0.5)) < 1e-9
+                except Exception:
+                    oke = None
+                if oke is None:
+                    ses.stats.kinds['call-raises'] = ses.stats.kinds.get('call-raises', 0) + 1
+                    ses.stats.obligations -= 1
+                elif oke:
+                    ses.stats.discharged += 1
+                else:
+                    report(ses, 'dro.expectation-call', '%s: E(2*x[1] - w + 0.5)() does not return the per-scenario values of the '
+                           'expression, labelled by scenario (got %r)' % (label, ev), dict(k='dro', case=case, seq=seq))
                 m.solution = sol
                 m.ro_model.solution = sol
                 m.ro_model.rc_model.solution = sol
